@@ -426,6 +426,11 @@ func swOracle(in swOracleIn, out *AreaOut) {
 	}
 	fail := func(clause, desc string) {
 		out.Oracle = append(out.Oracle, OracleFailure{"C13", clause, desc, in.Describe})
+		if clause == "only-expired" {
+			// C04: a deletion marker younger than the retention period that the sweeper removes is a lost deletion
+			// (older versions arriving later resurrect the key)
+			out.Oracle = append(out.Oracle, OracleFailure{"C04", "young-marker-swept", desc, in.Describe})
+		}
 	}
 	for _, d0 := range in.S0 {
 		out.OracleN++
@@ -800,7 +805,7 @@ func swStreamC(r *Rng, n int, nBig int, out *AreaOut, add func(cs, desc, histKey
 	for i := 0; i < n+nBig; i++ {
 		big := i >= n
 		native := r.Chance(55)
-		days := float32(1)
+		days := pick(r, []float32{1, 1, 1.5, 0.5, 2.25}) // retention_days is a float: fractions of a day count
 		if r.Chance(30) && !big {
 			days = 21000 // retention reaching before the epoch: the clamp gives cutoff 0
 		}
@@ -864,7 +869,23 @@ func swStreamC(r *Rng, n int, nBig int, out *AreaOut, add func(cs, desc, histKey
 		after, err := swDump(env, swNames(e))
 		// a SECOND pass of the same Sweeper object after the application replaced one DBI by another (same number of
 		// DBIs): every pass works on the DBIs that exist when it starts
-		if err == nil && serr == nil && fixedClock && r.Chance(30) && len(e) > 0 {
+		if err == nil && serr == nil && fixedClock && len(e) > 0 && r.Chance(20) {
+			// a SECOND pass of the same Sweeper an hour later with NOTHING written in between: markers expire by
+			// time alone, so those that crossed the retention period meanwhile go now
+			cut2 := guess + uint64(time.Hour)
+			sweeper.VerifSetClock(func(time.Time) time.Time {
+				return time.Unix(1700000000, 0).Add(time.Duration(i)*time.Second + time.Hour)
+			})
+			ctx2, cancel2 := context.WithTimeout(context.Background(), 20*time.Second)
+			serr2 := sw.VerifSweepOnce(ctx2)
+			cancel2()
+			sweeper.VerifSetClock(nil)
+			if s1, e1 := swDump(env, swNames(e)); e1 == nil {
+				hist(out.Hist, "real/second-pass-quiet-lmdb")
+				swOracle(swOracleIn{S0: after, S1: s1, Native: native, CutLo: cut2, CutHi: cut2, EndedOK: serr2 == nil,
+					Describe: map[string]any{"stream": "C(real Sweeper, second pass of the same Sweeper one hour later, nothing written in between)", "native": native, "cutoff": cut2, "error": fmt.Sprint(serr2), "before": after.coq(), "after": s1.coq()}}, out)
+			}
+		} else if err == nil && serr == nil && fixedClock && r.Chance(30) && len(e) > 0 {
 			victim := e[r.Intn(len(e))].Name
 			newName := "zz_renamed"
 			if strings.HasPrefix(victim, "_sync") || !native {
@@ -1189,7 +1210,7 @@ func swObserveLivelock(out *AreaOut) {
 }
 
 func areaSweeper(r *Rng, n int, dir string) (*AreaOut, error) {
-	out := &AreaOut{Hist: map[string]int{}, Rule: "sweeper, four streams. MODEL COMPARISON on small contents: (A) one write transaction with the real limitscanner.LimitScanner (LimitRecords 0..5, arbitrary Last cursor: unchanged / value changed / key gone / successor with byte-identical value / beyond the end) and a copy of the sweeper's loop body on DBIs of 0-8 records (live, markers with timestamp cutoff-1/cutoff/cutoff+1/0/1/2^64-1, unparsable values); (B) a copy of the sweep loop over 1-4 DBIs with application puts/deletes between slices aimed at the resume key (delete it, rewrite it, re-create it byte-identically, put next to it), native and non-native mode, header-less application DBIs; (C) the REAL Sweeper via VerifSweepOnce, quiescent application, LockDuration 0 or 1ns, retention 1 day (marker timestamps >= 20 s away from the cutoff computed inside sweep from time.Now()) or 21000 days (cutoff clamps to exactly 0: markers with timestamp 0 and 1 are the exact-boundary cases on the real comparison), plus DBIs of 1000-2400 records swept in 1000-record slices. ORACLE ONLY on large contents: (D) the real Sweeper on 2-5 DBIs of up to 5,000 records, LockDuration 1ns, ReleaseDuration 25ms, with a concurrent application goroutine writing at the scan front (resume key, its neighbours, byte-identical re-creations); checked: nothing but expired markers removed, no value altered, every expired marker not written by the application gone after a normal end, unselected DBIs untouched. The oracle also runs on (B) and (C). The exact comparison `timestamp >= cutoff` of the real sweeper at a non-zero cutoff is not observable (time.Now() inside sweep; testing/synctest needs a *testing.T): it is covered by the model, by (A)/(B) through the copied loop body, and on the real code at cutoff 0. distinct = distinct inputs; non-trivial = non-empty DBI (A), more than one slice (B), all of (C)"}
+	out := &AreaOut{Hist: map[string]int{}, Rule: "sweeper, four streams. MODEL COMPARISON on small contents: (A) one write transaction with the real limitscanner.LimitScanner (LimitRecords 0..5, arbitrary Last cursor: unchanged / value changed / key gone / successor with byte-identical value / beyond the end) and a copy of the sweeper's loop body on DBIs of 0-8 records (live, markers with timestamp cutoff-1/cutoff/cutoff+1/0/1/2^64-1, unparsable values); (B) a copy of the sweep loop over 1-4 DBIs with application puts/deletes between slices aimed at the resume key (delete it, rewrite it, re-create it byte-identically, put next to it), native and non-native mode, header-less application DBIs; (C) the REAL Sweeper via VerifSweepOnce, quiescent application, LockDuration 0 or 1ns, retention 1 day (marker timestamps >= 20 s away from the cutoff computed inside sweep from time.Now()) or 21000 days (cutoff clamps to exactly 0: markers with timestamp 0 and 1 are the exact-boundary cases on the real comparison), plus DBIs of 1000-2400 records swept in 1000-record slices. ORACLE ONLY on large contents: (D) the real Sweeper on 2-5 DBIs of up to 5,000 records, LockDuration 1ns, ReleaseDuration 25ms, with a concurrent application goroutine writing at the scan front (resume key, its neighbours, byte-identical re-creations); checked: nothing but expired markers removed, no value altered, every expired marker not written by the application gone after a normal end, unselected DBIs untouched. The oracle also runs on (B) and (C). 80% of the (C) runs substitute the sweeper's clock through the verif hook (retention 0.5 / 1 / 1.5 / 2.25 days): the cutoff is then known exactly, markers sit at cutoff-1 / cutoff / cutoff+1 and the real comparison decides them; the substitute clock jumps ten minutes at every further reading; 30% of those runs add a second pass of the same Sweeper after one DBI was dropped and another created. distinct = distinct inputs; non-trivial = non-empty DBI (A), more than one slice (B), all of (C)"}
 	if !swCursorLayoutOK() {
 		return nil, fmt.Errorf("limitscanner.LimitCursor layout changed: cannot build cursors")
 	}
